@@ -165,6 +165,18 @@ const SPECIAL: &[&str] = &[
     "w(X, X, X, X, X, X, X, X, X, Y) :- q(X), q(Y).", "w(X, X, X, X, X, X, X, X, Y, X) :- q(X), q(Y).", "{w(X, X, X, X, X, X, X, X, X, Y)} :- q(X), q(Y).",
 ];
 
+/// variables named like the ones anthem invents, rules without a natural translation next to rules that have one, predicates whose
+/// names begin with the letters the here-/there-copies are marked with
+const NAMES: &[&str] = &[
+    "p(X/2) :- q(V1), r(X).", "p(X/2) :- q(Y), r(X).", "p(X/2) :- q(V), r(X), not q(V1).", "p(V2/2) :- q(V1), r(V2).", "p(1..X) :- q(X), r(V1).", "p(1..X) :- q(X), r(Z).", "{p(X/2)} :- q(V1), not r(V1), q(X).",
+    "p(X) :- q(I), X = I/2, r(V1).", "p(V1) :- q(V1). r(X/2) :- q(X), p(V1).", "p(X\\2) :- q(X1), r(X), X1 > 0.",
+    "hq(X) :- q(X).", "q(X) :- hq(X).", "hq(X) :- q(X), not tq(X). tq(X) :- r(X).", "q(X) :- r(X), not tq(X). tq(X) :- r(X), not hq(X).", "hq(X) :- q(X). q(X) :- tq(X), not hq(X).", "{hq(X)} :- q(X). tq(X) :- hq(X/2), q(X).",
+    "hhq(X) :- hq(X), not q(X). thq(X) :- q(X).", "hq(X) :- q(X), not thq(X).",
+];
+
+/// the same for propositional programs
+const NAMESP: &[&str] = &["hp :- p.", "p :- hp.", "hp :- not p. tp :- p.", "p :- not tp. tp :- not hp.", "hp :- p, not tp.", "hhp :- hp, not p. thp :- p.", "{hp} :- p. tp :- hp, not not p.", "p :- thp. thp :- not htp. htp :- not p."];
+
 const FLAGS: &[&[&str]] = &[
     &[], &["--decomposition", "independent"], &["--no-simplify"], &["--no-eq-break"], &["--no-simplify", "--no-eq-break"], &["--decomposition", "independent", "--no-simplify"],
     &["--decomposition", "independent", "--no-eq-break"], &["--decomposition", "independent", "--no-simplify", "--no-eq-break"],
@@ -303,13 +315,15 @@ pub fn check_pair(left: &str, right: &str, flag_sets: &[&[&str]], n_interp: usiz
 
 pub fn pairs(deep: bool) -> Vec<(String, String, Vec<&'static [&'static str]>)> {
     let mut out = Vec::new();
-    for group in [PROP, FO, SPECIAL] {
+    for group in [PROP, FO, SPECIAL, NAMES, NAMESP] {
         let n = group.len();
         for i in 0..n {
             let js: Vec<usize> = if deep { (0..n).collect() } else { vec![(i + 1) % n, (i + 5) % n] };
             for j in js {
                 let k = i * 7 + j;
                 let flags: Vec<&'static [&'static str]> = if deep && (i + j) % 3 == 0 { FLAGS.to_vec() } else { vec![FLAGS[0], FLAGS[1 + k % (FLAGS.len() - 1)], FLAGS[1 + (k / 3 + 4) % (FLAGS.len() - 1)]] };
+                let mut flags = flags;
+                if std::ptr::eq(group, NAMES) && !flags.iter().any(|f| f.contains(&"mu")) { flags.push(FLAGS[8]); }
                 out.push((group[i].to_string(), group[j].to_string(), flags));
             }
         }
